@@ -253,12 +253,40 @@ pub struct PanicInfo {
 impl PanicInfo {
     /// Stable identity: file + message with run-dependent payload stripped.
     pub fn locus(&self) -> String {
-        format!("{} | {}", self.file, normalize_message(&self.message))
+        // file + message + the source text of the panicking line: stable when lines shift,
+        // and distinguishes the many `unwrap()` sites that share one message
+        format!("{} | {} @ {}", self.file, normalize_message(&self.message), source_line(&self.file, self.line))
     }
 }
 
 thread_local! {
     static LAST_PANIC: RefCell<Option<PanicInfo>> = const { RefCell::new(None) };
+}
+
+thread_local! {
+    static SOURCES: RefCell<BTreeMap<String, Vec<String>>> = const { RefCell::new(BTreeMap::new()) };
+}
+
+/// The trimmed text of line `line` of a subject source file (empty if not available).
+fn source_line(file: &str, line: u32) -> String {
+    if line == 0 || !file.starts_with("oq3_") {
+        return String::new();
+    }
+    SOURCES.with(|s| {
+        let mut s = s.borrow_mut();
+        let lines = s.entry(file.to_string()).or_insert_with(|| {
+            std::fs::read_to_string(format!("/repo/crates/{}", file)).map(|t| t.lines().map(|l| l.trim().to_string()).collect()).unwrap_or_default()
+        });
+        // a method chain split over several lines (`.unwrap()` alone on its line) is joined
+        // with the lines above it
+        let mut i = line as usize - 1;
+        let mut text = lines.get(i).cloned().unwrap_or_default();
+        while i > 0 && (text.starts_with('.') || text.starts_with(')') || text.starts_with("||")) && text.len() < 200 {
+            i -= 1;
+            text = format!("{}{}", lines[i], text);
+        }
+        text.chars().take(120).collect()
+    })
 }
 
 fn strip_path(p: &str) -> String {
